@@ -196,6 +196,14 @@ Section FmtP.
       rewrite Forall_forall in Hall. specialize (Hall c' Hc'). unfold before in Hall. lia.
   Qed.
 
+  Lemma chunk_read_eof_eq eof : forall cs l,
+    Forall (fun c => cend c <= eof) cs -> chunk_read_eof A oa eof cs l = chunk_read_f cs l.
+  Proof.
+    induction cs as [|c t IH]; intros l H; cbn [Formats.chunk_read_eof]; [reflexivity|].
+    inversion H as [|? ? Hc Ht]; subst. replace (eof <? cend c) with false by lia.
+    rewrite (IH l Ht). reflexivity.
+  Qed.
+
   Lemma covb_f_covered cs x : covb_f cs x = true <-> covered cs (oa x).
   Proof.
     unfold covb_f, covered, covers. rewrite existsb_exists.
@@ -206,7 +214,7 @@ Section FmtP.
     fmt_index ms d nref l = Some ixs -> (N.to_nat k < length ixs)%nat ->
     nth_error ixs (N.to_nat k) = Some (build_ref ms d k (placed l)).
   Proof.
-    unfold Formats.fmt_index. destruct (_ && _); [|discriminate]. intros H Hk. injection H as H. subst ixs.
+    unfold Formats.fmt_index. destruct (index_scan _ _ _ _); [discriminate|]. intros H Hk. injection H as H. subst ixs.
     rewrite map_length, seq_length in Hk. rewrite nth_error_map_seq by exact Hk.
     rewrite N2Nat.id. reflexivity.
   Qed.
@@ -214,7 +222,7 @@ Section FmtP.
   Lemma fmt_index_in ms d nref l ixs ix :
     fmt_index ms d nref l = Some ixs -> In ix ixs -> exists k, ix = build_ref ms d k (placed l).
   Proof.
-    unfold Formats.fmt_index. destruct (_ && _); [|discriminate]. intros H Hin. injection H as H. subst ixs.
+    unfold Formats.fmt_index. destruct (index_scan _ _ _ _); [discriminate|]. intros H Hin. injection H as H. subst ixs.
     apply in_map_iff in Hin. destruct Hin as (k & E & _). exists (N.of_nat k). auto.
   Qed.
 
@@ -337,14 +345,23 @@ Proof.
   repeat split; auto. lia.
 Qed.
 
-Lemma ctx_ok_in {A} (ctx : A -> ctxr) l x : ctx_ok A ctx l = true -> In x l -> ctx x <> CErr.
+Lemma index_scan_ok {A} (ctx : A -> ctxr) : forall l cur x,
+  index_scan A ctx cur l = None -> In x l -> ctx x <> CErr /\ ctx x <> CPanic.
 Proof.
-  unfold ctx_ok. rewrite forallb_forall. intros H Hx E. specialize (H x Hx). rewrite E in H. discriminate.
+  induction l as [|h t IH]; intros cur x H Hx; [destruct Hx|].
+  cbn [index_scan] in H. destruct Hx as [Hx|Hx].
+  - subst h. destruct (ctx x); try discriminate; split; discriminate.
+  - destruct (ctx h) as [| | |k s e]; try discriminate.
+    + exact (IH _ _ H Hx).
+    + destruct (cur <=? k); [exact (IH _ _ H Hx)|discriminate].
 Qed.
 
-Lemma fmt_index_ctx_ok {A} ctx oa ob ms d nref (l : list A) ixs :
-  fmt_index A ctx oa ob ms d nref l = Some ixs -> ctx_ok A ctx l = true.
-Proof. unfold fmt_index. destruct (ctx_ok A ctx l); [reflexivity|discriminate]. Qed.
+Lemma fmt_index_ctx_ok {A} ctx oa ob ms d nref (l : list A) ixs x :
+  fmt_index A ctx oa ob ms d nref l = Some ixs -> In x l -> ctx x <> CErr /\ ctx x <> CPanic.
+Proof.
+  unfold fmt_index. destruct (index_scan A ctx 0 l) eqn:E; [discriminate|]. intros _ Hx.
+  exact (index_scan_ok ctx l 0 x E Hx).
+Qed.
 
 Definition region_ok (ms : N) (d : nat) (iv : region) : Prop :=
   1 <= iv_start iv /\ iv_start iv <= iv_end_query ms d iv /\ iv_end_query ms d iv <= max_position ms d.
@@ -359,12 +376,12 @@ Theorem bam_query_equals_scan kd ms d nref l ixs k iv :
   bam_query kd ms d ixs l k iv = QOk (bam_scan l k iv).
 Proof.
   intros Ho Hwf Hsp Hix Hk (Hq1 & Hq2 & Hq3). unfold bam_query, bam_scan.
-  pose proof (fmt_index_ctx_ok _ _ _ _ _ _ _ _ Hix) as Hctx.
+  assert (Hctx : forall x, In x l -> bam_ctx x <> CErr) by (intros x Hx; exact (proj1 (fmt_index_ctx_ok _ _ _ _ _ _ _ _ x Hix Hx))).
   rewrite Forall_forall in Hwf.
   assert (Hsp' : forall x k' s, In x l -> b_rid x = Some k' -> b_pos x = Some s ->
             1 <= s /\ s <= spec_end s (b_cigar x) /\ spec_end s (b_cigar x) <= max_position ms d).
   { intros x k' s Hx Hk' Hs.
-    destruct (bam_ctx_some x (Hwf x Hx) (ctx_ok_in _ _ _ Hctx Hx) k' s Hk' Hs) as (_ & _ & Hc).
+    destruct (bam_ctx_some x (Hwf x Hx) (Hctx x Hx) k' s Hk' Hs) as (_ & _ & Hc).
     apply (Hsp (mkrec k' s (spec_end s (b_cigar x)) (b_a x) (b_b x))).
     apply placed_in. exists x. split; [exact Hx|]. unfold to_rec. rewrite Hc. reflexivity. }
   apply (fmt_query_equals_scan bam_rec bam_ctx b_a b_b bam_hit kd ms d nref l ixs k iv
@@ -377,7 +394,7 @@ Proof.
     apply N.eqb_eq in Ek. subst id.
     destruct (b_pos x) as [s|] eqn:Es.
     2:{ exfalso. destruct (Hwf x Hx) as [H _]. apply H; [rewrite Er; discriminate|exact Es]. }
-    destruct (bam_ctx_some x (Hwf x Hx) (ctx_ok_in _ _ _ Hctx Hx) k s Er Es) as (Hae & Hlt & _).
+    destruct (bam_ctx_some x (Hwf x Hx) (Hctx x Hx) k s Er Es) as (Hae & Hlt & _).
     destruct (Hsp' x k s Hx Er Es) as (H1 & H2 & H3).
     cbn [andb]. destruct (unbounded iv) eqn:Eu.
     + destruct iv as [[?|] [?|]]; try discriminate.
@@ -389,7 +406,7 @@ Proof.
     destruct (b_rid x) as [id|] eqn:Er; [|discriminate].
     destruct (b_pos x) as [s|] eqn:Es; [|discriminate].
     apply andb_prop in Hh. destruct Hh as [Ek Hi]. apply N.eqb_eq in Ek. subst id.
-    destruct (bam_ctx_some x (Hwf x Hx) (ctx_ok_in _ _ _ Hctx Hx) k s Er Es) as (_ & _ & Hc).
+    destruct (bam_ctx_some x (Hwf x Hx) (Hctx x Hx) k s Er Es) as (_ & _ & Hc).
     destruct (Hsp' x k s Hx Er Es) as (H1 & H2 & H3).
     eexists. split; [unfold to_rec; rewrite Hc; reflexivity|].
     unfold intersects, on_ref. cbn [r_rid r_s r_e]. rewrite N.eqb_refl. cbn [andb].
